@@ -523,8 +523,9 @@ func checkC16(w *World) {
 	var render *ssa.Function
 	scope.all(func(in ssa.Instruction) {
 		if c, ok := in.(*ssa.Call); ok {
-			if sc := staticCallee(c); sc != nil && fnPkgKey(sc) == "parser" && sc.Signature.Results().Len() == 1 && isStringType(sc.Signature.Results().At(0).Type()) && len(sc.Params) == 1 {
-				if _, isIface := sc.Params[0].Type().Underlying().(*types.Interface); isIface {
+			if sc := staticCallee(c); sc != nil && fnPkgKey(sc) == "parser" && sc.Signature.Results().Len() == 1 && isStringType(sc.Signature.Results().At(0).Type()) && (len(sc.Params) == 1 || (len(sc.Params) == 2 && sc.Signature.Recv() != nil)) {
+				// a function of the token, or a method of the adapter that is handed the token
+				if _, isIface := sc.Params[len(sc.Params)-1].Type().Underlying().(*types.Interface); isIface {
 					render = sc
 				}
 			}
